@@ -492,6 +492,37 @@ func c16GenRound(r *Rng) c16Input {
 	return c16Input{Kind: "round", Blocks: bs}
 }
 
+// c16GenRetry: sequences in which some Write calls fail (no type URL for the header, a block that
+// does not marshal) and the same writer goes on being used
+func c16GenRetry(r *Rng) c16Input {
+	n := 2 + r.Intn(5)
+	bs := c16GenSeq(r, n, false)
+	bad := func(k int) {
+		switch r.Intn(3) {
+		case 0: // legacy block: no type URL (fails only while the header is still to be written)
+			bs[k].HasPayload, bs[k].URL, bs[k].Val = false, nil, nil
+			bs[k].Kind = int32(1 + r.Intn(2))
+		case 1: // empty type URL
+			bs[k].HasPayload, bs[k].URL = true, nil
+		default: // invalid UTF-8 in a string field: proto.Marshal fails
+			bs[k].ID = append([]byte{0xff, 0xfe}, bs[k].ID...)
+		}
+	}
+	switch r.Intn(4) {
+	case 0, 1:
+		bad(0)
+		if r.Chance(40) && n > 2 {
+			bad(1)
+		}
+	case 2:
+		bad(r.Intn(n))
+	default:
+		bad(0)
+		bad(r.Intn(n))
+	}
+	return c16Input{Kind: "retry", Blocks: bs}
+}
+
 func c16GenFaults(r *Rng, sel int, tier string) c16Input {
 	n := 1 + r.Intn(4)
 	bs := c16GenSeq(r, n, false)
@@ -672,7 +703,12 @@ func c16GenMerged(r *Rng) c16Input {
 
 func c16Gen(r *Rng, i int, tier string) any {
 	switch i % 12 {
-	case 0, 10:
+	case 0:
+		return c16GenRound(r)
+	case 10:
+		if r.Chance(50) {
+			return c16GenRetry(r)
+		}
 		return c16GenRound(r)
 	case 1:
 		return c16GenFaults(r, 0, tier)
@@ -800,6 +836,75 @@ func c16ExecRound(in *c16Input) (*Case, error) {
 		}
 	}
 	cs.Key = "round:" + string(file) + fmt.Sprint(len(in.Blocks))
+	return cs, nil
+}
+
+// c16ExecRetry uses ONE writer for every block of the sequence, whatever the earlier calls
+// returned: every block whose Write returned nil must be read back.
+func c16ExecRetry(in *c16Input) (*Case, error) {
+	pbs := make([]*pbbstream.Block, len(in.Blocks))
+	encs := make([]string, len(in.Blocks))
+	for i, b := range in.Blocks {
+		pbs[i] = b.pb()
+		m, err := proto.Marshal(pbs[i])
+		if err != nil {
+			encs[i] = "None"
+		} else {
+			encs[i] = "(Some " + coqBytes(string(m)) + ")"
+		}
+	}
+	buf := bytes.NewBuffer(nil)
+	oks := make([]bool, 0, len(pbs))
+	end, _ := c16Guard(func() {
+		w, err := bstream.NewDBinBlockWriter(buf)
+		if err != nil {
+			return
+		}
+		for _, b := range pbs {
+			oks = append(oks, w.Write(b) == nil)
+		}
+	})
+	wpanic := end != ""
+	file := buf.Bytes()
+	var accepted []*pbbstream.Block
+	okStr := make([]string, len(oks))
+	nFail := 0
+	for i, ok := range oks {
+		okStr[i] = coqBool(ok)
+		if ok {
+			accepted = append(accepted, pbs[i])
+		} else {
+			nFail++
+		}
+	}
+	blk := c16Read(file, "block")
+	got := make([]string, len(blk.Blocks))
+	var proj []string
+	for i, p := range blk.Blocks {
+		proj = append(proj, c16Project(p))
+		if i < len(accepted) && proto.Equal(p, accepted[i]) {
+			got[i] = "None"
+		} else {
+			got[i] = "(Some " + c16FromPB(p).coq() + ")"
+		}
+	}
+	obs := &c16RoundObs{WriteOK: nFail == 0, WritePanic: wpanic, FileLen: len(file), CType: blk.CType, End: blk.End, Panic: blk.PanicAt, Blocks: proj}
+	cs := &Case{Obs: obs, Nontrivial: len(accepted) > 0 && nFail > 0}
+	cs.Coq = fmt.Sprintf("CRetry %s %s %d %d %s %s %s %s %s", c16CoqBlks(in.Blocks), coqList(encs), len(file), c16WSum(file),
+		coqList(okStr), coqBool(wpanic), coqOptBytes(blk.CType), coqList(got), coqEnd(blk.End))
+	switch {
+	case wpanic || blk.End == "panic" || blk.End == "hang":
+		cs.Class = "retry/crash"
+	case nFail == 0:
+		cs.Class = "retry/no-failed-write"
+	case len(accepted) == 0:
+		cs.Class = "retry/nothing-accepted"
+	case len(oks) > 0 && !oks[0]:
+		cs.Class = "retry/first-write-failed"
+	default:
+		cs.Class = "retry/later-write-failed"
+	}
+	cs.Key = "retry:" + string(file) + fmt.Sprint(oks)
 	return cs, nil
 }
 
@@ -1483,6 +1588,8 @@ func c16Exec(raw json.RawMessage) (*Case, error) {
 	switch in.Kind {
 	case "round":
 		return c16ExecRound(&in)
+	case "retry":
+		return c16ExecRetry(&in)
 	case "faults":
 		return c16ExecFaults(&in)
 	case "name":
@@ -1515,6 +1622,10 @@ func c16Corpus() []any {
 		c16Input{Kind: "parse", Text: []byte("18446744073709551616-a-b-1-x")},
 		// writer: first block without payload (fixed: error instead of a nil dereference)
 		c16Input{Kind: "round", Blocks: []c16Blk{{Num: 3, ID: []byte("x"), Kind: 2}}},
+		// a legacy block at the first streamable height keeps the parent number it was written with
+		c16Input{Kind: "round", Blocks: []c16Blk{two[0], {Num: 0, ID: []byte("00bb"), Kind: 2, PBuf: []byte{9}}, {Num: 0, ID: []byte("00cc"), Kind: 1, PNum: 7}}},
+		// the writer used again after a first Write that failed in the header step
+		c16Input{Kind: "retry", Blocks: []c16Blk{{Num: 3, ID: []byte("x"), Kind: 2}, two[0], two[1]}},
 		// fetch (fixed): the id of the block of height num+1 asked at height num
 		c16Input{Kind: "fetch", Blocks: []c16Blk{mk(5, "00000000000000000000aa05", "p", 3, "t/T", []byte{1}), mk(6, "00000000000000000000bb06", "q", 3, "t/T", []byte{2})},
 			Suffix:  []byte("s"),
